@@ -15,6 +15,17 @@ for m in sm.modules.values():
     quals = {q: function_profile(node) for q, node, cls, parent in module_function_quals(m.tree)}
     if quals:
         inv[m.relpath] = quals
-out = {'functions': {k: inv[k] for k in sorted(inv)}, 'fields': field_profiles(sm)}
+import ast
+module_names = {}
+for m in sm.modules.values():
+    names = set()
+    for st in m.tree.body:
+        if isinstance(st, ast.Assign):
+            names |= {t.id for t in st.targets if isinstance(t, ast.Name)}
+        elif isinstance(st, ast.AnnAssign) and isinstance(st.target, ast.Name):
+            names.add(st.target.id)
+    if names:
+        module_names[m.relpath] = sorted(names)
+out = {'functions': {k: inv[k] for k in sorted(inv)}, 'fields': field_profiles(sm), 'module_names': module_names}
 json.dump(out, open(os.path.join(VERIF, 'reference', 'functions.json'), 'w'), indent=0, sort_keys=True)
 print(sum(len(v) for v in inv.values()), 'functions in', len(inv), 'files;', len(out['fields']), 'stored attribute names')
